@@ -12,7 +12,7 @@ RULE = ("integer-valued 2-D images with even sides 2..16 (thorough: ..64), squar
         "table values) vs the implementation (rel. 1e-5: float32 coefficients), idaubechies(daubechies(wavelet_center(f))) decentered "
         "== f (1e-3), linearity (1e-9); wavelet_center shape/offset == model, wavelet_decenter(wavelet_center(f)) == f exactly. "
         "Non-trivial: image not constant")
-NOT_PROVED = ["perfect reconstruction for D4..D20 is not a Coq theorem: the tables are proved orthonormal within 1e-5 [fin] and the "
+NOT_PROVED = ["Haar: rows and the full 2-D two-pass inverse are theorems (ihaar2d_haar2d); perfect reconstruction for D4..D20 is not a Coq theorem: the tables are proved orthonormal within 1e-5 [fin] and the "
               "reconstruction is checked numerically on every case",
               "floating-point rounding of the transforms on non-integer data is outside the exact models"]
 BUDGET_S = {"quick": 100, "thorough": 900}
